@@ -489,8 +489,49 @@ class Session:
             self.do_create(oper)
         elif kind == "reopen":
             self.do_reopen()
+        elif kind == "alias":
+            self.do_alias(oper)
         else:
             raise ValueError(kind)
+
+    def do_alias(self, oper):
+        """
+        History builder, not judged: make one scalar an alias of another
+        (``yaml-set --aliasof``).  No property speaks about this operation;
+        it is here because later sets, deletes and creations must hold on
+        documents whose anchors were made by the library itself.
+        """
+        pre_ok = True
+        try:
+            if self.cli:
+                argv = ["--change=" + oper["path"],
+                        "--aliasof=" + oper["source"]]
+                if oper.get("anchor"):
+                    argv.append("--anchor=" + oper["anchor"])
+                done, _txt = self.run_cli(argv, "C03", "alias",
+                                          allow_refusal=True)
+                if done is None:
+                    self.stats["refused"] += 1
+                return
+            self.proc.alias_nodes(oper["path"], oper["source"],
+                                  anchor_name=oper.get("anchor"))
+        except Violation as ex:
+            raise SessionAbort("alias step failed in the tool: %s"
+                               % ex.cls) from ex
+        except YAMLPathException:
+            self.stats["refused"] += 1
+            return
+        except Exception as ex:  # pylint: disable=broad-except
+            raise SessionAbort("alias step raised %s"
+                               % type(ex).__name__) from ex
+        try:
+            again, okay = strict_load(dump_text(self.doc, self.knobs))
+            pre_ok = okay and snapshot.typed(again) == snapshot.typed(self.doc)
+        except Exception:  # pylint: disable=broad-except
+            pre_ok = False
+        if not pre_ok:
+            raise SessionAbort("alias step left a document that does not "
+                               "round-trip")
 
     # -- the same edit through the real yaml-set entry point ------------
     TARGET = "/sim/w/doc.yaml"
@@ -890,11 +931,11 @@ class Session:
 # ----------------------------------------------------------------------
 WEIGHTS = {
     "C03": [("set", 60), ("delete", 10), ("create", 10), ("query", 8),
-            ("reopen", 10), ("delete-root", 2)],
+            ("reopen", 10), ("delete-root", 2), ("alias", 4)],
     "C04": [("delete", 55), ("set", 15), ("create", 8), ("query", 8),
-            ("reopen", 10), ("delete-root", 4)],
+            ("reopen", 10), ("delete-root", 4), ("alias", 4)],
     "C09": [("query", 45), ("create", 30), ("set", 8), ("delete", 7),
-            ("reopen", 10)],
+            ("reopen", 10), ("alias", 5)],
 }
 
 
@@ -920,6 +961,18 @@ def gen_op(rng, tree, prop, flow=False):
     if kind == "delete-root":
         return {"op": "delete-root",
                 "route": rng.choice(["generator", "gathered"])}
+    if kind == "alias":
+        scal = [(p, n) for p, n in model.walk(tree) if p and n.kind == "s"]
+        if len(scal) < 2:
+            return {"op": "reopen"}
+        (tgt, _tn), (src, snode) = rng.sample(scal, 2)
+        sep = rng.choice([".", "/"])
+        anchor = None
+        if snode.anchor is None and rng.random() < 0.6:
+            anchor = rng.choice(["made1", "made2", "A9"])
+        return {"op": "alias", "path": render(tgt, sep),
+                "source": render(src, sep), "anchor": anchor,
+                "form": "alias"}
     if kind == "query":
         roll = rng.random()
         if roll < 0.45:
@@ -1106,7 +1159,8 @@ def shard_main(payload):
     seed, prop, shard, lo, hi, tier = payload
     agg = {"sessions": 0, "steps": 0, "matched": 0, "skipped": 0,
            "forms": set(), "violations": [], "digests": [], "samples": [],
-           "other_property": {}, "behaviours": set(), "discarded": 0}
+           "other_property": {}, "behaviours": set(), "discarded": 0,
+           "aborted": 0}
     for idx in range(lo, hi):
         recipe, sess, viol = run_session(seed, prop, shard, idx, tier)
         agg["sessions"] += 1
@@ -1114,6 +1168,7 @@ def shard_main(payload):
         agg["matched"] += sess.stats["matched"]
         agg["skipped"] += sess.stats["skipped"]
         agg["discarded"] += sess.stats.get("discarded", 0)
+        agg["aborted"] += sess.stats.get("aborted", 0)
         agg["cli_sessions"] = agg.get("cli_sessions", 0) + \
             (1 if recipe.get("cli") else 0)
         agg["forms"] |= sess.stats["forms"]
@@ -1284,7 +1339,7 @@ def main():
         sys.exit(2)
     wall = time.time() - start
     agg = {"sessions": 0, "steps": 0, "matched": 0, "skipped": 0,
-           "discarded": 0, "cli_sessions": 0}
+           "discarded": 0, "cli_sessions": 0, "aborted": 0}
     forms = set()
     behaviours = set()
     violations = []
@@ -1374,6 +1429,9 @@ def main():
             "steps_skipped_out_of_domain_or_unmatched": agg["skipped"],
             "sessions_discarded_document_does_not_roundtrip_unedited":
                 agg["discarded"],
+            "sessions_cut_short_outside_the_checkable_domain_"
+            "(ruamel_merge_source_delete,_unjudged_alias_step_failed)":
+                agg["aborted"],
             "path_forms_exercised": sorted("%s:%s" % f for f in forms),
             "steps_per_hour": round(agg["steps"] / max(wall, 1e-6) * 3600),
             "violations_of_other_properties_seen": other,
